@@ -288,6 +288,7 @@ def Hub.confirm (h : Hub) (chain signer : String) (k : ConfKind) (extSigner sig 
   if !h.outgoingExists chain k then failM "couldn't find outgoing tx"
   let c := h.chain chain
   let eth := (alGet c.valExt v).getD zeroEth
+  if eth == zeroEth then failM "validator has no external address registered"
   if eth != extSigner then failM "eth address does not match signer eth address"
   let r : SigRec := { index := k.index chain, val := v, sig := sig }
   if c.sigs.any (fun x => sigKey x == sigKey r) then failM "signature duplicate"
